@@ -4,13 +4,14 @@
 // case line :  <kind> <meta> <dictser> <contenthex>        (only words 2 and 3 are used here)
 // dictser   :  comma separated prefix tokens
 //                N | B0 | B1 | I<int> | /<hex> | S<hex> | R<num>.<gen> | A<n> obj*n | D<n> (<hexkey> obj)*n
+//                | X (an object the filter code never inspects: built as the real number 3.0)
 // output    :  ok <contenthex> <dictser, keys sorted> | err <kind> | panic <msg>
 //
 // `gen` (native generator): payloads compressed by the real zlib (flate2::Compression levels 0-9),
 // optionally wrapped in ASCIIHex / ASCII85 layers written by small btoa/xxd-style encoders below.
 use parsley_rust::pcore::parsebuffer::LocatedVal;
 use parsley_rust::pdf_lib::pdf_obj::{ArrayT, DictKey, DictT, PDFObjT, ReferenceT, StreamT};
-use parsley_rust::pdf_lib::pdf_prim::{IntegerT, NameT, StreamContentT};
+use parsley_rust::pdf_lib::pdf_prim::{IntegerT, NameT, RealT, StreamContentT};
 use parsley_rust::pdf_lib::pdf_streams::decode_stream;
 use std::collections::BTreeMap;
 use std::io::Write;
@@ -27,6 +28,7 @@ fn parse_obj(t: &[&str], i: &mut usize) -> Option<PDFObjT> {
         "I" => PDFObjT::Integer(IntegerT::new(r.parse().ok()?)),
         "/" => PDFObjT::Name(NameT::new(unhex(r))),
         "S" => PDFObjT::String(unhex(r)),
+        "X" => PDFObjT::Real(RealT::new(30, 10)),
         "R" => {
             let mut p = r.split('.');
             PDFObjT::Reference(ReferenceT::new(p.next()?.parse().ok()?, p.next()?.parse().ok()?))
